@@ -1,5 +1,7 @@
 import Gms.Driver.Proto
 import Gms.Model.Crash
+import Gms.Model.SliceMap
+import Gms.Model.StoredReparse
 import Gms.Generated.C10
 open Gms.Proto Gms.RangeMap Gms.Crash
 
@@ -9,6 +11,11 @@ Driver for C10.
                                        the length-guard flag re-read from the source
   (unq x<bytes>)                       outcome class of `Unquote`
   (auth <len> <hashOk> <valid>)        `ValidateHash` with a response of <len> bytes: accepted | denied | crash
+  (loc x<needle> x<haystack> [<pos>])  `Locate.Eval` on literals: the value or `crash` (Impl model `locateG` with
+                                       `strings.ToLower` over the regenerated case table; the Spec column is `?`:
+                                       the property — no panic — is evaluated by the harness's oracle)
+  (rp <step> …)                        stored-procedure history `(m NAME…) | (c n body) | (k n) | (l)`: one outcome
+                                       class per step (Impl model `StoredReparse.run` with the recorded-mode policy)
   (sql <stream> x<text>)               `returns`: what the property demands of every statement (the
                                        engine as a whole is not modelled; crashes reach the check
                                        through the harness's oracle stream)
@@ -17,8 +24,34 @@ Driver for C10.
 def table? (name : String) : Option RangeMap :=
   (Gms.Generated.C10.tables.find? (fun p => p.1 == name)).map (·.2)
 
+def rpStep? : Sexp → Option (Gms.StoredReparse.Stmt Nat)
+  | .list (.atom "m" :: names) => some (.setMode (names.filterMap Sexp.str?))
+  | .list [.atom "c", n, b] => do some (.create (← n.nat?) (← b.nat?))
+  | .list [.atom "k", n] => do some (.call (← n.nat?))
+  | .list [.atom "l"] => some .list
+  | _ => none
+
+/-- the session's sql_mode before the first SET -/
+def defaultMode : Gms.StoredReparse.Mode := ["NO_ENGINE_SUBSTITUTION", "ONLY_FULL_GROUP_BY", "STRICT_TRANS_TABLES"]
+
 def handle (p : List Sexp) : String :=
   match p with
+  | [.list (.atom "loc" :: sub :: str :: rest)] =>
+    let pos : Option Int := match rest with
+      | [] => some 1
+      | [q] => q.int?
+      | _ => none
+    match sub.bytes?, str.bytes?, pos with
+    | some sb, some b, some q =>
+      let lower := Gms.SliceMap.lowerWith Gms.Generated.C10.caseTable
+      answer (Gms.SliceMap.locObs (Gms.SliceMap.locateG lower (sb.map (·.toNat)) (b.map (·.toNat)) q)) "?"
+    | _, _, _ => answer "bad-case"
+  | [.list (.atom "rp" :: steps)] =>
+    match steps.mapM rpStep? with
+    | some h =>
+      let obs := Gms.StoredReparse.run Gms.StoredReparse.rpParses Gms.StoredReparse.recordedPolicy (Gms.StoredReparse.St.init defaultMode) h
+      answer (",".intercalate (obs.map Gms.StoredReparse.Obs.str))
+    | none => answer "bad-case"
   | [.list [.atom "rm", .atom cs, .atom op, bs]] =>
     match table? cs, bs.bytes? with
     | some rm, some b =>
